@@ -323,8 +323,7 @@ func largeFileReceive(wrt http.ResponseWriter, req *http.Request) {
 		return
 	}
 
-	fdef, err = store.Files.FinishUpload(fdef, true, size)
-	if err != nil {
+	if _, err = store.Files.FinishUpload(fdef, true, size); err != nil {
 		logs.Info.Println("media upload: failed to finalize", file, "key", fdef.Location, err)
 		// Best effort cleanup.
 		mh.Delete([]string{fdef.Location})
